@@ -156,6 +156,10 @@ func (rb *replayBuilder) qual(p *types.Package) string {
 			name = name + fmt.Sprint(len(rb.imports))
 		}
 	}
+	// a package-level name of the package under test would clash with the file's import
+	if rb.pkg != nil && rb.pkg.Scope().Lookup(name) != nil {
+		name = name + "_vr"
+	}
 	rb.imports[p.Path()] = name
 	return name
 }
